@@ -38,14 +38,19 @@ class GridSearchOptimizer(BaseOptimizer):
         self.step_size = step_size
         self.direction = direction
 
+        # the back-end re-seeds the generators: give it this optimizer's own
+        # seed (it already contains nth_process), so that a run made with
+        # random_state=None is reproduced by passing its random_seed
+        backend_random_state = self.random_seed
+
         if direction == "orthogonal":
             self.grid_search_opt = OrthogonalGridSearchOptimizer(
                 search_space=search_space,
                 initialize=initialize,
                 constraints=constraints,
-                random_state=random_state,
+                random_state=backend_random_state,
                 rand_rest_p=rand_rest_p,
-                nth_process=nth_process,
+                nth_process=None,
                 step_size=step_size,
             )
         elif direction == "diagonal":
@@ -53,9 +58,9 @@ class GridSearchOptimizer(BaseOptimizer):
                 search_space=search_space,
                 initialize=initialize,
                 constraints=constraints,
-                random_state=random_state,
+                random_state=backend_random_state,
                 rand_rest_p=rand_rest_p,
-                nth_process=nth_process,
+                nth_process=None,
                 step_size=step_size,
             )
         else:
